@@ -35,7 +35,11 @@ from typing import (
 
 from dissect import cstruct
 from dissect.cobaltstrike import pe
-from dissect.cobaltstrike.guardrails import GuardrailMetadata, iter_guardrail_configs_with_beacon
+from dissect.cobaltstrike.guardrails import (
+    GuardrailMetadata,
+    has_guardrail_config,
+    iter_guardrail_configs_with_beacon,
+)
 from dissect.cobaltstrike.utils import (
     catch_sigpipe,
     grouper,
@@ -338,6 +342,11 @@ def find_beacon_config_bytes(fh: BinaryIO, xorkey: bytes) -> Iterator[bytes]:
     xorred_config_block = xor(CONFIG_HEADER, xorkey)
 
     for pos in iter_find_needle(fh, xorred_config_block, start_offset=0):
+        if has_guardrail_config(fh, pos):
+            # Guardrails: masked with an environmental key that happens to start with repeated bytes, it only looks
+            # like a config block under `xorkey`. Left to `iter_guardrail_configs_with_beacon`.
+            logger.debug(f"Ignoring CONFIG_HEADER at {pos} using xorkey: 0x{xorkey.hex()}, guardrail config follows")
+            continue
         fh.seek(pos)
         data = fh.read(PATCH_SIZE)
         logger.debug(f"Found CONFIG_HEADER using xorkey: 0x{xorkey.hex()}")
